@@ -346,6 +346,13 @@ func (g *PG) stmt(depth int) {
 		case c == 8 && len(g.vars("[]int")) > 0:
 			g.f("append")
 			s := Pick(r, g.vars("[]int"))
+			if r.Bool() { // a spread onto a nil slice: the new slice owns its elements whatever is pushed afterwards
+				g.f("append-spread-onto-nil")
+				nn := g.fresh("n")
+				g.w("var %s []int\n%s = append(%s, %s...)\nprintln(\"sp\", %s[2]*3+%s[1]*2+%s[0], %s, len(%s))\n", nn, nn, nn, s, nn, nn, nn, g.intExpr(2), nn)
+				g.declare(nn, "[]int")
+				break
+			}
 			// bounded: an append inside a range over the same slice would otherwise double it per pass
 			g.w("if len(%s) < 24 {\n%s = append(%s, %s)\n}\n", s, s, s, g.intExpr(1))
 		default:
